@@ -237,11 +237,14 @@ class Walk:
         last_other = [None] * nt
         cand = [None] * nt              # candidate settling access of each thread (see mon_stranded)
         acq_pos = [None] * nt           # position of the thread's latest acquisition of the outer mutex still held
+        lcand = [None] * nt             # a load() invoked with nothing held and nobody in flight, undisturbed so far
         for i, (t, k, o, v, m) in zip(self.pos, self.ev):
             # a candidate access of another thread is spoiled by any event of this thread
             for u in range(nt):
                 if u != t and cand[u] is not None:
                     cand[u] = None
+                if u != t:
+                    lcand[u] = None
             if k == K['INVOKE']:
                 opidx[t] += 1
                 prog = case['progs'][t]
@@ -257,6 +260,8 @@ class Walk:
                     quiet = all(cur_op[u] is None for u in range(nt) if u != t) and all(h == 0 for h in held)
                     if quiet:
                         cand[t] = {'t': t, 'i': i, 'op': op, 'submitted': set(inv) - ({op[1]} if op[0] in SUBMIT else set())}
+                        if op[0] == LOAD:
+                            lcand[t] = {'i': i, 'submitted': set(inv)}
                 continue
             op = cur_op[t]
             if k in (K['RET'], K['CATCH']):
@@ -299,6 +304,13 @@ class Walk:
                                 self.bad('future', 'future of functor %d returned %d at line %d, the functor produced %s' % (f, v, i, wend.get(f)))
                     if op[0] == LOAD and k == K['RET'] and v != last_read[t]:
                         self.bad('payload', 'load of thread %d returned %d at line %d but read %s' % (t, v, i, last_read[t]))
+                    if op[0] == LOAD and k == K['RET'] and lcand[t] is not None:
+                        missing = sorted(f for f in lcand[t]['submitted'] if f not in call)
+                        if missing:
+                            self.bad('load_stale', 'load() of thread %d (invoked at line %d with no handle held and no other operation in flight, '
+                                     'and run alone) returned %d at line %d without the modification(s) %s, whose submit calls had returned before'
+                                     % (t, lcand[t]['i'], v, i, missing))
+                        lcand[t] = None
                 # at top level a thread owns the outer mutex only through a client handle on a plain mutex
                 if owner == t and not (not cap and held[t] > 0):
                     self.bad('lock_leaked', 'thread %d is back at top level at line %d and still owns the outer mutex' % (t, i))
@@ -653,6 +665,64 @@ def mon_functor_under_list_lock(case, lines):
     return None
 
 
-MONITORS = {'functor_under_list_lock': mon_functor_under_list_lock, 'reader_refused_by_reader': mon_reader_refused_by_reader, 'try_null_iff': mon_try_null_iff, 'try_blocks': mon_try_blocks, 'fault': mon_fault, 'twice': mon_twice, 'exclusive': mon_exclusive, 'order': mon_order, 'stranded': mon_stranded,
+def mon_load_stale(case, lines):
+    """C15: load() is an atomic read of the register whose value includes every accepted modification: a load()
+    invoked while no handle is held and no other operation is in flight, and run alone, must apply every
+    modification whose submit call returned before (def_next_access_drains for the op LoadOp) and return that value"""
+    return _first(_walk(case, lines), 'load_stale')
+
+
+def mon_flag_not_atomic(case, lines):
+    """C07 / C06: the pending flag is read without any lock (the pre-checks of do_pending_writes and
+    do_pending_writes_internal) and written by submitters and drainers: it has to be an atomic object, and the
+    protocol (DeferredProofs.def_all_atomics_seq_cst, SC-for-DRF) needs these accesses to be seq_cst atomic
+    events.  In the trace: a queued submission (failed try-lock) returns without an atomic store 1, a reader entry
+    performs no atomic load at all, or a successful exclusive try-lock is not followed by an atomic load."""
+    cur, start, seen_load, failed_try, stored, expect_load = {}, {}, {}, {}, {}, {}
+    outer = None
+    for l in lines:
+        if len(l) == 5 and l[0] >= 0 and l[1] in (K['TRYLOCK'], K['TRYLOCK_FOR']) + K_S_ACQ:
+            outer = l[2]
+            break
+    for i, l in enumerate(lines):
+        if len(l) != 5 or l[0] < 0:
+            continue
+        t, k, o, v, m = l
+        if k == K['INVOKE']:
+            cur[t], start[t], seen_load[t], failed_try[t], stored[t], expect_load[t] = v, i, False, False, False, None
+            continue
+        c = cur.get(t)
+        if c is None:
+            continue
+        if expect_load.get(t) is not None:
+            if k != K['LOAD']:
+                return ('thread %d: the exclusive try-lock at trace line %d (operation %d) is not followed by an atomic load of the '
+                        'pending flag: the flag is not an atomic object any more' % (t, expect_load[t], c))
+            expect_load[t] = None
+        if k in (K['RET'], K['CATCH']):
+            if c in (DETACH, ASYNC) and failed_try[t] and not stored[t]:
+                return ('thread %d: the modification queued by the call invoked at trace line %d was published without an atomic '
+                        'store of true to the pending flag: the flag is not an atomic object any more' % (t, start[t]))
+            if c in SHARED_OPS + (LOAD,) and not seen_load[t] and k == K['RET'] and v != -1:
+                return ('thread %d: the reader entry invoked at trace line %d (operation %d) performed no atomic load of the pending '
+                        'flag: the unlocked pre-check reads a non-atomic flag' % (t, start[t], c))
+            cur[t] = None
+            continue
+        if k == K['LOAD']:
+            seen_load[t] = True
+        elif k == K['STORE'] and v == 1:
+            stored[t] = True
+        elif k == K['TRYLOCK'] and o == outer and c in (DETACH, ASYNC, LOCK_SH, TRY_SH, TRY_SH_FOR, TRY_SH_UNTIL, LOAD):
+            if c in (DETACH, ASYNC):
+                if v == 0:
+                    failed_try[t] = True
+                else:
+                    expect_load[t] = i
+            elif v == 1 and seen_load[t] is True and shcap(case['cfg']):
+                expect_load[t] = i      # the drain try-lock of a reader entry (shared-capable mutex: not the handle itself)
+    return None
+
+
+MONITORS = {'load_stale': mon_load_stale, 'flag_not_atomic': mon_flag_not_atomic, 'functor_under_list_lock': mon_functor_under_list_lock, 'reader_refused_by_reader': mon_reader_refused_by_reader, 'try_null_iff': mon_try_null_iff, 'try_blocks': mon_try_blocks, 'fault': mon_fault, 'twice': mon_twice, 'exclusive': mon_exclusive, 'order': mon_order, 'stranded': mon_stranded,
             'lost': mon_lost, 'payload': mon_payload, 'future': mon_future, 'exn': mon_exn, 'lock_leaked': mon_lock_leaked,
             'deadlock': mon_deadlock, 'seq_cst': mon_seq_cst, 'trace': mon_trace}
